@@ -723,6 +723,9 @@ class Executor(object):
             # concrete callee with a symbolic argument: only a few are understood
             slf = getattr(f, "__self__", None)
             name = getattr(f, "__name__", "")
+            if isinstance(slf, str) and name in ("find", "index", "startswith", "endswith", "split", "partition", "rpartition", "strip", "lstrip", "rstrip") and not kwargs:
+                # a concrete string as receiver of a method with a symbolic argument
+                return self.call_sym_method(SStr(z3.StringVal(slf)), name, args, kwargs)
             if isinstance(slf, list) and name == "append" and len(args) == 1 and not kwargs:
                 slf.append(args[0])  # a list local to this path (paths re-execute from scratch)
                 return None
@@ -798,7 +801,7 @@ class Executor(object):
             return SInt(z3.Length(a.z))
         if isinstance(a, SSplit):
             # number of pieces: fork over 1..4, more is refused
-            for n in range(1, 5):
+            for n in range(0 if a.start > 0 else 1, 5):
                 ps = self.split_exactly(a, n, raise_unsupported=False)
                 if ps is not None:
                     return n
@@ -1245,6 +1248,8 @@ class Executor(object):
             a = norm(lo, z3.IntVal(0))
             b = norm(hi, n)
             return SStr(z3.If(b > a, z3.SubString(o.z, a, b - a), z3.StringVal("")))
+        if isinstance(o, str) and (isinstance(lo, SInt) or isinstance(hi, SInt)):
+            return self.slice(SStr(z3.StringVal(o)), lo, hi)
         if is_sym(o) or isinstance(lo, SInt) or isinstance(hi, SInt):
             raise Unsupported("slice of %s" % type(o).__name__)
         try:
